@@ -1,6 +1,7 @@
 """T13 rule-precondition ledger: the set of branch conditions that dominate the construction of each language-rule
 diagnostic (and each call of a validator function), as symbolic expressions. A rule that is produced under narrower, wider
 or different conditions than recorded is reported."""
+import hashlib
 import json
 import os
 import re
@@ -94,12 +95,13 @@ def _rv(f, rv):
 def rule_sites(prog, scope):
     """(key, fn, bb, span) for every Error/Lint construction and every call of a function of `scope` made from a function of `scope`."""
     out = []
-    fns = [f for f in prog.fns.values() if f.crate.tag in RULE_CRATES and scope(f)]
+    crates = getattr(scope, 'crates', RULE_CRATES)
+    fns = [f for f in prog.fns.values() if f.crate.tag in crates and scope(f)]
     names = {f.path for f in fns}
     for f in sorted(fns, key=lambda x: x.path):
         cnt = {}
         for kind, adt in (('Error', 'slicec::diagnostics::errors::Error'), ('Lint', 'slicec::diagnostics::lints::Lint')):
-            ags = [a for a in aggregates(prog, adt, crates=RULE_CRATES) if a['fn'] is f and not f.blocks[a['bb']].get('cleanup')]
+            ags = [a for a in aggregates(prog, adt, crates=crates) if a['fn'] is f and not f.blocks[a['bb']].get('cleanup')]
             ags.sort(key=lambda a: (a['span'].cline, a['span'].line, a['bb']))
             for a in ags:
                 k = (kind, a['rv']['v'])
@@ -122,14 +124,16 @@ def rule_sites(prog, scope):
                 k = ('returns', val)
                 n = cnt.get(k, 0)
                 cnt[k] = n + 1
-                out.append(('%s|returns %s|#%d' % (f.path, val[:160], n), f, bbv, f.span))
+                shown = val if len(val) <= 160 else '%s~%s' % (val[:160], hashlib.sha1(val.encode()).hexdigest()[:10])    # long values: prefix + digest of the whole
+                out.append(('%s|returns %s|#%d' % (f.path, shown, n), f, bbv, f.span))
         extra = getattr(scope, 'extra_calls', ())
         calls = [c for c in f.calls() if (((c.f.get('res') or '') in names and c.f.get('res') != f.path) or c.name() in extra) and not f.blocks[c.bb].get('cleanup')]
         calls.sort(key=lambda c: (c.span.cline, c.span.line, c.bb))
         for c in calls:
             nm = re.sub(r'::<.*?>', '', c.f.get('res') or c.callee or '?').rsplit('::', 1)[-1]
             if c.name() in extra:
-                nm = '%s(%s)' % (nm, ','.join(_norm(vexpr(f, a, depth=20))[:80] for a in c.args))
+                full = [_norm(vexpr(f, a, depth=20)) for a in c.args]
+                nm = '%s(%s)' % (nm, ','.join(x if len(x) <= 80 else '%s~%s' % (x[:80], hashlib.sha1(x.encode()).hexdigest()[:8]) for x in full))
             targ = ''
             ts = [t for t in c.targs if 'slicec::grammar' in t]
             if ts:
